@@ -133,6 +133,20 @@ package influxql
 //@   store map[interface{}]bool
 //@     requires [numeric_member_only_from_a_numeric_token] tagis(key, "float64") ==> (tok == INTEGER || tok == NUMBER)
 //@     requires [other_tokens_stay_strings] !(tok == INTEGER || tok == NUMBER) ==> tagis(key, "string")
+// ... and a numeric member is the number its text denotes INCLUDING a minus sign in front of it: the printer writes a
+// negative member as `-1`, the scanner returns that as a SUB token followed by the number token.
+//@   ghost m0 bool = false
+//@   ghost m1 bool = false
+//@   ghost pf float64 = 0
+//@   call (*Parser).ScanIgnoreWhitespace
+//@     set m0 = m1
+//@     set m1 = (ret0 == SUB)
+//@   call strconv.ParseFloat
+//@     set pf = ret0
+//@   store map[interface{}]bool
+//@     requires [minus_sign_in_front_of_a_number_is_applied] tagis(key, "float64") && !isNaN(pf) ==> as(key, "float64") == (m0 ? -pf : pf)
+//@   loop 1
+//@     invariant negative == m1
 
 // ---- literals keep their type through print and re-parse: the text of a float literal must not be readable as
 // an integer. Below the int range the shortest 'f' text is used and gets ".0" appended unless it already contains a
